@@ -443,7 +443,7 @@ export function show(v, depth = 0) {
 
 // ---- generation --------------------------------------------------------------------------------
 
-export const NUM_POOL = ['0', '1', '2', '3', '7', '10', '255', '0.5', '.25', '5.', '1e3', '1e-2', '0x1f', '0xFF', '017', '08', '1.5e2', '4294967296', '2147483648', '9007199254740993', '0.1', '100']
+export const NUM_POOL = ['0', '1', '2', '3', '7', '10', '255', '0.5', '.25', '5.', '1e3', '1e-2', '0x1f', '0xFF', '017', '08', '1.5e2', '4294967296', '2147483648', '9007199254740993', '0.1', '100', '1e+5', '1E5', '0XFF', '2.5E-3', '7E+0']
 export const STR_POOL = ['', 'a', 'b', '0', '1', 'x y', "it's", 'q"q', 'back\\slash', 'nl\nx', 'tab\tx', 'é', '漢', '😀', 'length', 'a-b', '  ', '</wxs>', '{{', '}}']
 export const KW_POOL = ['true', 'false', 'null', 'undefined']
 
